@@ -48,12 +48,20 @@ def run_corpus(ck):
 
 
 def run(ck):
-    ck.build_and_audit()
-    run_corpus(ck)
-    cli.suite_filter(ck)
-    cli.suite_malformed(ck)
-    cli.suite_lex(ck)
-    cli.suite_prune(ck)
+    import time
+    phases = {}
+
+    def timed(name, f):
+        t = time.time()
+        f()
+        phases[name] = round(time.time() - t, 1)
+    timed('build+audit (incl. waiting for the shared build lock)', ck.build_and_audit)
+    timed('corpus', lambda: run_corpus(ck))
+    timed('cli.filter', lambda: cli.suite_filter(ck))
+    timed('cli.malformed', lambda: cli.suite_malformed(ck))
+    timed('cli.lex', lambda: cli.suite_lex(ck))
+    timed('cli.prune', lambda: cli.suite_prune(ck))
+    ck.dist['phase_seconds'] = phases
     ck.assumptions.extend([
         'input of the filter lexer is ASCII outside string literals (Python regexes are Unicode aware)',
         'numeric literals and attribute values stay where IEEE rounding is not observable by == '
